@@ -5,6 +5,7 @@ from sa.cfg import cfg_of, handler_type_names
 from sa.program import dotted, norm, own_nodes, const_str
 from sa.util import (ancestors, assignments_to, cfg_node_of, compare_parts, enclosing_try_bodies, guards_at, parents,
                      self_calls_in, stmt_text, names_in)
+from . import shared
 from .roles import VIEWS, roles
 
 BUILTIN_EXC = {"TypeError", "ValueError", "KeyError", "AttributeError", "IndexError", "RuntimeError", "LookupError", "Exception",
@@ -236,6 +237,8 @@ def run(ctx):
             okw = all(g_r.always_before(vcalls, i, follow_exc=False) for i in cfg_node_of(rts, x))
             c.ob("R7", okw, rts, f"validated-before-walk:{norm(x)[:40]}", "the segments are validated before the walk" if okw else
                  f"'{norm(x)}' is reachable without _validate_segments: an empty segment is looked up as a state key", x)
+    # ---- R8 id tests in the resolution fallbacks carry the '.' separator (an unresolvable target must not resolve by a character suffix) ----
+    shared.dotted_id_tests(ctx, "R8")
     # ---- R5 an unresolvable target is a StateNotFoundError in both engines -------------------------
     for v in VIEWS:
         r = roles(ctx, v)
